@@ -32,8 +32,8 @@ Theorem c18_command_valid_hash_changed : forall c h infos outs,
 Proof. exact command_valid_hash_changed. Qed.
 Print Assumptions c18_command_valid_hash_changed.
 
-(* what the hash covers (getCommandHash, repair 66b1a7c): the command line and the three declared input lists;
-   so "changed command line" includes every rewiring of the inputs *)
+(* what the hash covers (getCommandHash, repairs 66b1a7c and c54418f): the command line, the three declared input
+   lists and the output list; so "changed command line" includes every rewiring of the inputs and outputs *)
 Theorem c18_hash_material_injective : forall d1 d2, hash_material d1 = hash_material d2 -> d1 = d2.
 Proof. exact hash_material_injective. Qed.
 Print Assumptions c18_hash_material_injective.
@@ -42,6 +42,23 @@ Theorem c18_hash_material_unrepaired_refuted :
   exists d1 d2, d1 <> d2 /\ hash_material_unrepaired d1 = hash_material_unrepaired d2 /\ hash_material d1 <> hash_material d2.
 Proof. exact hash_material_unrepaired_refuted. Qed.
 Print Assumptions c18_hash_material_unrepaired_refuted.
+
+Theorem c18_hash_material_no_outputs_refuted :
+  exists d1 d2, d1 <> d2 /\ hash_material_no_outputs d1 = hash_material_no_outputs d2 /\ hash_material d1 <> hash_material d2.
+Proof. exact hash_material_no_outputs_refuted. Qed.
+Print Assumptions c18_hash_material_no_outputs_refuted.
+
+(* a declared self-reference is handed to the engine (which reports the cycle) by every statement except a phony one in
+   default mode *)
+Theorem c18_start_keys_self_reference : forall strict phony outs ins o,
+  strict = true \/ phony = false -> In o ins -> In o (start_keys strict phony outs ins).
+Proof. exact start_keys_self_reference. Qed.
+Print Assumptions c18_start_keys_self_reference.
+
+Theorem c18_start_keys_phony_lenient : forall outs ins,
+  start_keys false true outs ins = filter (fun i => negb (mem_bytes i outs)) ins.
+Proof. exact start_keys_phony_lenient. Qed.
+Print Assumptions c18_start_keys_phony_lenient.
 
 (* ---- a failing command stops its dependents and is retried ---- *)
 
